@@ -559,6 +559,16 @@ RAW_OK_CALLEES = {"builtins.len", "builtins.isinstance", "builtins.type", "built
 def call_ext(ex, dotted, args, kwargs, node, frame):
     if dotted not in RAW_OK_CALLEES and (any(contains_raw(a) for a in args) or any(contains_raw(a) for a in kwargs.values())):
         ex.emit("raw_use", node, what=f"operand of {dotted}", value=None)
+    out = kwargs.get("out")
+    if dotted.startswith("numpy.") and out is not None and not isinstance(out, NoneV):
+        # out=: the result is written INTO an existing array (an in-place update of whatever else refers to it)
+        ex.emit("out_write", node, target=out, callee=dotted)
+        if isinstance(out, Num):
+            if out.meta.get("foreign") or (isinstance(out.meta.get("alias_of"), Num) and out.meta["alias_of"].meta.get("foreign")):
+                ex.emit("store_foreign", node, target=out, root=out, index=None, value=None, aug=True)
+            if out.arr is not None:
+                out.arr.epoch += 1
+        kwargs = {k: v for k, v in kwargs.items() if k != "out"}
     f = EXT.get(dotted)
     if f is not None:
         try:
@@ -2152,6 +2162,14 @@ def num_method(ex, v: Num, name, args, kwargs, node):
             r = ListV([], opaque=True, lid=ex.list_counter, elem=Num(v.nf, (), v.dtype) if v.shape is not None and len(v.shape) == 1 else None)
             r.from_array = v
             return r
+        if name == "squeeze":
+            # axes of length one are dropped: a known shape loses its constant-1 dimensions; for an operand of unknown
+            # rank the result is another value with a rank of its own
+            if v.shape is None:
+                return ex.mk("squeeze", ex.as_nf(v, node), shape=None, dtype=v.dtype)
+            sh = tuple(d for d in v.shape if lift(d).as_const() != 1)
+            if len(sh) != len(v.shape):
+                return Num(v.nf, sh, v.dtype, "ndarray", arr=v.arr, cond=v.cond, meta=dict(v.meta, alias_of=v))
         return Num(v.nf, v.shape, v.dtype, "ndarray", arr=v.arr, cond=v.cond, meta=dict(v.meta, alias_of=v))
     if name == "isna":
         return Num(None, v.shape, "bool", v.pytype, cond=Cond("opq", f"isna({valkey(v)})"))
